@@ -245,6 +245,37 @@ def fault_schedule_programs():
         yield [tok("jal", 0, 0, 0, 8, 8), f, tok("addi", 4, 0, 0, 1)], regs
 
 
+def wrap_program(rng):
+    """Aligned loads and stores whose address computation leaves the 32-bit range: negative offsets from x0, a base just
+    below 2^32 with offsets that stay below / reach / cross 2^32, plus ordinary accesses to the same cache sets. A store
+    through one spelling of an address is read back through another (x0 - 4 vs 0xFFFFFFF0 + 12)."""
+    prog = []
+    spell = {0xFFFFFFFC: [(0, -4), (6, 12)], 0xFFFFFFF8: [(0, -8), (6, 8)], 0xFFFFFFF0: [(0, -16), (6, 0)], 0xFFFFF800: [(0, -2048)],
+             DATA: [(2, 0)], DATA + 8: [(2, 8)], 0x100000000 + 4: [(6, 20)]}          # the last one wraps to 4: illegal in every configuration
+    addrs = [a for a in spell if a < 2**32]
+    for _ in range(rng.choice([4, 6, 9])):
+        a = rng.choice(addrs if rng.random() < 0.93 else list(spell))
+        base, off = rng.choice(spell[a])
+        if rng.random() < 0.5:
+            op = rng.choice(ST_OPS)
+            prog.append(tok(op, 0, base, rng.choice([5, 10, 1]), off + (rng.choice([0, 1, 2, 3]) if op == "sb" else rng.choice([0, 2]) if op == "sh" else 0)))
+        else:
+            op = rng.choice(LD_OPS)
+            prog.append(tok(op, rng.choice([1, 5, 10]), base, 0, off + (rng.choice([0, 1, 2, 3]) if op in ("lb", "lbu") else rng.choice([0, 2]) if op in ("lh", "lhu") else 0)))
+    regs = {2: DATA, 6: 0xFFFFFFF0, 5: rng.randrange(2**32), 10: rng.choice(BND32), 1: 0x01020304}
+    return prog, regs, []
+
+
+def wrap_case(rng, mode, hazard=True, trace=0, run=300, dspec="-", ispec="-", suite="sim-wrap"):
+    prog, regs, pokes = wrap_program(rng)
+    lines = header(mode, hazard, dspec, ispec, prog, regs, pokes)
+    lines.append("sim.snap")
+    for _ in range(trace):
+        lines += ["sim.step", "sim.snap"]
+    lines += [f"sim.run {run}", "sim.snap"]
+    return Case(suite, lines, None, {"mode": mode, "hazard": hazard, "prog": prog, "regs": regs, "pokes": pokes, "d": dspec, "i": ispec})
+
+
 def penalty_cache_spec(rng, kind):
     """a cache with a miss penalty > 0 (small geometries, so that evictions happen)"""
     pol = rng.choice(["lru", "plru"])
